@@ -70,8 +70,79 @@ def body_resolve(cap):
     return body
 
 
+# ----------------------------------------------------------------------------- (4) JSON half at the serde data-model level: single-point corruptions of valid documents
+def doc_sites(j, path=()):
+    yield path, j
+    if j[0] == 'obj':
+        for i, (k, v) in enumerate(j[1]): yield from doc_sites(v, path + (('k', i),))
+    elif j[0] == 'arr':
+        for i, v in enumerate(j[1]): yield from doc_sites(v, path + (('i', i),))
+
+
+def doc_replace(j, path, f):
+    """copy of j with the node at path replaced by f(node) (f may return None = delete from its container)"""
+    if not path: return f(j)
+    kind, i = path[0]
+    items = list(j[1])
+    if kind == 'k':
+        k, v = items[i]; nv = doc_replace(v, path[1:], f)
+        if nv is None: del items[i]
+        else: items[i] = (k, nv)
+    else:
+        nv = doc_replace(items[i], path[1:], f)
+        if nv is None: del items[i]
+        else: items[i] = nv
+    return (j[0], items)
+
+
+def doc_mutations(j):
+    """(description, mutated document)"""
+    n = [0]
+    def sym():
+        n[0] += 1; return z3.BitVec('jn%d' % n[0], 64)
+    for path, node in doc_sites(j):
+        if path:
+            yield 'delete %s' % (path,), doc_replace(j, path, lambda x: None)
+        for name, repl in (('null', ('null',)), ('number', ('num', sym())), ('string', ('str', Tok('junk'))), ('empty array', ('arr', [])), ('empty object', ('obj', []))):
+            if node[0] != repl[0] or node[0] in ('num',): yield 'replace %s by %s' % (path, name), doc_replace(j, path, lambda x, r=repl: r)
+        if node[0] == 'obj':
+            yield 'unknown key in %s' % (path,), doc_replace(j, path, lambda x: ('obj', list(x[1]) + [('zzUnknown', ('num', sym()))]))
+            for i, (k, v) in enumerate(node[1]):
+                yield 'duplicate key %s in %s' % (k, path), doc_replace(j, path, lambda x, i=i: ('obj', list(x[1]) + [x[1][i]]))
+                yield 'rename key %s in %s' % (k, path), doc_replace(j, path, lambda x, i=i: ('obj', [(kk if ii != i else kk + 'X', vv) for ii, (kk, vv) in enumerate(x[1])]))
+        if node[0] == 'arr' and node[1]:
+            yield 'duplicate element in %s' % (path,), doc_replace(j, path, lambda x: ('arr', list(x[1]) + [x[1][0]]))
+
+
+def body_json_corrupt(template):
+    from checks import c08
+    from lib.regmodel import RegBuilder, check_decls
+    def body(M):
+        check_decls(M.decls, M)
+        M.aux['const_hook'] = lambda M, s: (Tok('const:' + s.split('::')[-1]) if re.search(r'::(FIELDS|VARIANTS)$', s) or '__FieldVisitor' in s or '__Visitor' in s else NotImplemented)
+        rb = RegBuilder(len(template), vec_cap=1, param_cap=1, template=template, full_ids=True)
+        rb.docs = lambda: rb.vec(lambda: rb.tok('doc'), fixed=1)
+        rb.path = lambda: [rb.vec(lambda: rb.tok('seg'), fixed=1)]
+        reg = rb.registry(symbolic_ids=True)
+        for c in rb.cons: M.add(c)
+        r = M.run_fn(M.resolve('<PortableRegistry as Serialize>::serialize'), [Ref(Cell(reg)), Tok('serializer')])
+        doc = payload(r, 0)[0]
+        outcomes = {'ok': 0, 'err': 0}
+        for desc, mdoc in doc_mutations(doc):
+            try:
+                rr = M.call("<PortableRegistry as Deserialize<'_>>::deserialize::<__D>", [c08.JDe(mdoc)])
+                outcomes['ok' if is_variant(M, rr, 0, 'json.result') else 'err'] += 1
+            except Panic as e:
+                m = M.model()
+                M.emit('cex', what='json_decode', mutation=desc, json=c08.jshow(m, mdoc), problem='panic: ' + str(e)[:160]); return
+        M.emit('ok', outcome='json', mutations=outcomes['ok'] + outcomes['err'], accepted=outcomes['ok'], rejected=outcomes['err'])
+    return body
+
+
 def replay_case(ctx, case):
     nat = ctx.get_native()
+    if case['what'] == 'json_decode':
+        a = nat.ask({'op': 'json_decode', 'json': case['json']}); return bool(a.get('panic') or a.get('crashed')), None
     if case['what'] == 'resolve':
         a = nat.ask({'op': 'resolve', 'n': case['n'], 'id': case['id'], 'id_fields': case.get('id_fields')}); return (a.get('panic') or a.get('crashed') or not a.get('ok', False)), None
     a = nat.ask({'op': 'decode_bytes', 'entry': case['entry'], 'bytes': case['bytes']})
@@ -142,7 +213,7 @@ def run(ctx):
     ctx.bounds = {'PortableRegistry: buffer length (every byte free)': '<= %d' % N_reg, 'inner nodes as entry points (PortableType, Type, TypeDef, Field, Variant, TypeParameter, Path)': '<= %d' % N_node,
                   'resolve: registry length / id': '<= 3 / all u32'}
     ctx.outside = ['panic-freedom and allocation behaviour of parity-scale-codec\'s own Vec/String decoders on arbitrary input (modelled, not checked: CBMC cannot run them - DESIGN.md P10; no allocator model)',
-                   'the whole JSON half of the property (serde_json parsing of a symbolic document is outside every installed engine)', 'inputs longer than the bounds (the smallest registry with one composite entry and one field is 12 bytes)',
+                   'the JSON half is decided only at the serde data-model level (single-point corruptions of valid document trees through the derived Deserialize MIR); serde_json\'s text parser, multi-point corruptions and memory use are outside', 'inputs longer than the bounds (the smallest registry with one composite entry and one field is 12 bytes)',
                    'memory proportional to input: follows from the vector model (a length prefix larger than the remaining input is an error because every element type occupies at least one byte) - an assumption about the codec, not decided']
     ctx.assumptions = ['codec primitives as modelled in mirsym/codec_models.py incl. error behaviour (short input, bad Option tag, non-minimal compact, invalid UTF-8, oversized length prefix); validated against the real crate on concrete byte strings every run']
     cexs = []
@@ -155,6 +226,14 @@ def run(ctx):
         ctx.obligations['decode %s from every buffer of <= %d bytes: no panic edge; Ok => canonical (%d paths, %d Ok paths)' % (entry, N, tot, oks)] = 'sat' if any(c.get('entry') == entry for c in cexs) else 'unsat'
         if oks == 0 and not cexs: raise CheckInconclusive('vacuity: no Ok path for ' + entry)
         if len(cexs) > 10: break
+    # (4) JSON at the serde data-model level: every single-point corruption of valid documents goes through the derived Deserialize MIR without a panic edge
+    from checks import c08
+    tot_mut = 0
+    for k in (range(8) if T else (0, 3, 5, 7)):
+        hj = run_harness(ctx, 'json-corrupt-kind%d' % k, body_json_corrupt([{'kind': k, 'nparams': 1, 'lens': [1, 1, 1]}]), fs='serde', models=c08.SERDE_MODELS + c08.SERDE_DE_MODELS, subst=CODEC_SUBST)
+        cexs += [r for r in hj.results if r['kind'] == 'cex']
+        tot_mut += sum(r.get('mutations', 0) for r in hj.results if r['kind'] == 'ok')
+    ctx.obligations['JSON (serde data model): %d single-point corruptions (delete / retype / unknown, duplicate, renamed key / duplicated element) of valid documents of every kind: Deserialize returns Ok or Err, no panic edge' % tot_mut] = 'sat' if any(c.get('what') == 'json_decode' for c in cexs) else 'unsat'
     h = run_harness(ctx, 'resolve', body_resolve(3))
     cexs += [r for r in h.results if r['kind'] == 'cex']
     ctx.obligations['resolve(id): None iff id >= len, Some(types[id].ty) otherwise, never panics (len <= 3, all u32 ids, arbitrary id fields in the entries)'] = 'sat' if h.kinds.get('cex') else 'unsat'
